@@ -18,16 +18,12 @@ import (
 // "deep equal" for this framework iff their dumps are equal (NaN equals NaN).
 func dump(v interface{}) string {
 	var sb strings.Builder
-	dumpTo(&sb, v)
+	dumpTo(&sb, v, 0)
 	return sb.String()
 }
 
-var dumpDepth int
-
-func dumpTo(sb *strings.Builder, v interface{}) {
-	dumpDepth++
-	defer func() { dumpDepth-- }()
-	if dumpDepth > 60 {
+func dumpTo(sb *strings.Builder, v interface{}, depth int) {
+	if depth > 60 {
 		sb.WriteString("<too-deep-or-cyclic>")
 		return
 	}
@@ -58,18 +54,18 @@ func dumpTo(sb *strings.Builder, v interface{}) {
 	case json.Number:
 		sb.WriteString("n:" + string(t))
 	case map[string]interface{}:
-		dumpMap(sb, t)
+		dumpMap(sb, t, depth)
 	case mxj.Map:
-		dumpMap(sb, t)
+		dumpMap(sb, t, depth)
 	case mxj.MapSeq:
-		dumpMap(sb, t)
+		dumpMap(sb, t, depth)
 	case []interface{}:
 		sb.WriteByte('[')
 		for i, e := range t {
 			if i > 0 {
 				sb.WriteByte(',')
 			}
-			dumpTo(sb, e)
+			dumpTo(sb, e, depth+1)
 		}
 		sb.WriteByte(']')
 	case []byte:
@@ -79,7 +75,7 @@ func dumpTo(sb *strings.Builder, v interface{}) {
 	}
 }
 
-func dumpMap(sb *strings.Builder, m map[string]interface{}) {
+func dumpMap(sb *strings.Builder, m map[string]interface{}, depth int) {
 	if m == nil {
 		sb.WriteString("nilmap")
 		return
@@ -96,7 +92,7 @@ func dumpMap(sb *strings.Builder, m map[string]interface{}) {
 		}
 		sb.WriteString(strconv.Quote(k))
 		sb.WriteByte(':')
-		dumpTo(sb, m[k])
+		dumpTo(sb, m[k], depth+1)
 	}
 	sb.WriteByte('}')
 }
@@ -164,6 +160,26 @@ func deepCopy(v interface{}) interface{} {
 	default:
 		return v
 	}
+}
+
+// withSpare deep-copies v giving every list one spare slot of capacity (like inst and like lists
+// grown by append), so that a replayed case has the same backing-array shape as the explored one.
+func withSpare(v interface{}) interface{} {
+	switch t := v.(type) {
+	case map[string]interface{}:
+		m := make(map[string]interface{}, len(t))
+		for k, e := range t {
+			m[k] = withSpare(e)
+		}
+		return m
+	case []interface{}:
+		l := make([]interface{}, len(t), len(t)+1)
+		for i, e := range t {
+			l[i] = withSpare(e)
+		}
+		return l
+	}
+	return v
 }
 
 func short(s string, n int) string {
